@@ -49,6 +49,7 @@ class Overlay:
         self.ghosts = []      # dict(fn, where, nth, anchor, text)
         self.rlimit = None
         self.extra_args = []
+        self.attrs = []       # (fn, attribute) — verifier attributes such as #[verifier::spinoff_prover]
         self.externals = []   # fns kept with their real body but marked external_body (assumed contract)
         self._parse()
 
@@ -128,6 +129,8 @@ class Overlay:
                     self.rlimit = parts[1]
                 elif k == 'external':
                     self.externals.append(parts[1])
+                elif k == 'attr':
+                    self.attrs.append((parts[1], ' '.join(parts[2:])))
                 elif k == 'verus-arg':
                     self.extra_args += parts[1:]
                 elif k == 'builtin':
@@ -539,6 +542,12 @@ def _decorate_fn(ov, key, text, log):
         m0 = re.search(r'(?m)^(\s*)((?:const\s+|unsafe\s+)?fn\s)', text)
         text = text[:m0.start()] + m0.group(1) + '#[verifier::external_body]\n' + text[m0.start():]
         log.append(dict(rule='N7', item=key, count=1, note='function kept with its real body but marked external_body: its contract is ASSUMED'))
+    for (f, attr) in ov.attrs:
+        if f == key:
+            if not re.match(r'#\[verifier::(spinoff_prover|rlimit\(\d+\)|loop_isolation\((true|false)\))\]$', attr):
+                raise Undecided('overlay: attribute not allowed: ' + attr)
+            m0 = re.search(r'(?m)^(\s*)((?:const\s+|unsafe\s+)?fn\s)', text)
+            text = text[:m0.start()] + m0.group(1) + attr + '\n' + text[m0.start():]
     # function contract
     if key in ov.specs:
         sp = ov.specs[key]
@@ -997,7 +1006,32 @@ def verify_unit(vspec_path, workdir, check_reach=True, extra_postlude=None, extr
     gen = os.path.join(workdir, ov.unit + '.rs')
     with open(gen, 'w') as f:
         f.write(built.text)
-    res = run_verus(gen, ov.rlimit, ov.extra_args)
+    # main file and vacuity-guard variant are independent: run them concurrently
+    import threading
+    rbox = {}
+    rnames = []
+    rtext = None
+    if check_reach:
+        rtext, rnames = reach_variant(built, ov)
+    if rnames:
+        rpath = os.path.join(workdir, ov.unit + '__reach.rs')
+        with open(rpath, 'w') as f:
+            f.write(rtext)
+
+        def _run_reach():
+            try:
+                rbox['res'] = run_verus(rpath, ov.rlimit, ov.extra_args)
+            except Undecided as e:
+                rbox['err'] = e
+        th = threading.Thread(target=_run_reach)
+        th.start()
+    else:
+        th = None
+    try:
+        res = run_verus(gen, ov.rlimit, ov.extra_args)
+    finally:
+        if th is not None:
+            th.join()
     cl = classify(res, built)
     per, total = census(built.text)
     out = dict(unit=ov.unit, property=ov.property, generated=gen, cmd=res['cmd'], wall_s=round(res['wall'], 2),
@@ -1008,25 +1042,22 @@ def verify_unit(vspec_path, workdir, check_reach=True, extra_postlude=None, extr
                sources=built.sources, reach=None)
     if cl['undecided']:
         raise Undecided('[%s] %s' % (ov.unit, cl['undecided']))
-    if cl['ok'] and check_reach:
-        rtext, names = reach_variant(built, ov)
-        if names:
-            rpath = os.path.join(workdir, ov.unit + '__reach.rs')
-            with open(rpath, 'w') as f:
-                f.write(rtext)
-            rres = run_verus(rpath, ov.rlimit, ov.extra_args)
-            diags = [d for d in parse_diagnostics(rres['stderr']) if d['level'] == 'error']
-            rl = rtext.split('\n')
-            failed = set()
-            for d in diags:
-                if d['line'] and 'assertion failed' in d['msg']:
-                    m = re.search(r'/\*VXREACH (\w+)\*/', rl[d['line'] - 1])
-                    if m:
-                        failed.add(m.group(1))
-            vac = [n for n in names if n not in failed]
-            out['reach'] = dict(functions_with_requires=len(names), reachable=len(names) - len(vac), vacuous=vac)
-            if vac:
-                raise Undecided('[%s] vacuity guard: precondition of %s is unsatisfiable (assert(false) verified)' % (ov.unit, vac))
+    if cl['ok'] and rnames:
+        if 'err' in rbox:
+            raise rbox['err']
+        rres = rbox['res']
+        diags = [d for d in parse_diagnostics(rres['stderr']) if d['level'] == 'error']
+        rl = rtext.split('\n')
+        failed = set()
+        for d in diags:
+            if d['line'] and 'assertion failed' in d['msg']:
+                m = re.search(r'/\*VXREACH (\w+)\*/', rl[d['line'] - 1])
+                if m:
+                    failed.add(m.group(1))
+        vac = [n for n in rnames if n not in failed]
+        out['reach'] = dict(functions_with_requires=len(rnames), reachable=len(rnames) - len(vac), vacuous=vac)
+        if vac:
+            raise Undecided('[%s] vacuity guard: precondition of %s is unsatisfiable (assert(false) verified)' % (ov.unit, vac))
     return out
 
 
